@@ -302,6 +302,10 @@ pub struct SchemaSet {
     pub files: Vec<XsdFile>,
     pub wsdl: Option<Wsdl>,
     pub start: String,
+    /// print the XML Schema namespace as the DEFAULT namespace of every .xsd file (`<schema
+    /// xmlns="http://www.w3.org/2001/XMLSchema">`, `<element>`, `type="string"`): a common spelling
+    #[serde(default)]
+    pub xs_is_default_namespace: bool,
 }
 
 pub fn esc(s: &str) -> String {
@@ -674,7 +678,15 @@ fn print_wsdl_prefixed(w: &Wsdl) -> String {
 impl SchemaSet {
     /// the canonical form: the printed file set, sorted by file name
     pub fn print(&self) -> Vec<(String, String)> {
-        let mut v: Vec<(String, String)> = self.files.iter().map(|f| (f.name.clone(), print_xsd(f))).collect();
+        let xs_default = |f: &XsdFile, text: String| {
+            if !self.xs_is_default_namespace || f.default_ns.is_some() {
+                return text;
+            }
+            // same infoset, other spelling: the XML Schema namespace is the default namespace, so its
+            // elements and the builtin type names are written without a prefix
+            text.replace(&format!("xmlns:xs=\"{XS}\""), &format!("xmlns=\"{XS}\"")).replace("<xs:", "<").replace("</xs:", "</").replace("=\"xs:", "=\"")
+        };
+        let mut v: Vec<(String, String)> = self.files.iter().map(|f| (f.name.clone(), xs_default(f, print_xsd(f)))).collect();
         if let Some(w) = &self.wsdl {
             v.push((w.name.clone(), print_wsdl(w)));
         }
